@@ -45,6 +45,7 @@ Definition loc_ok (a : acc) : bool :=
   if a_sync a then true else
   if String.eqb (a_struct a) "Service" then
     if String.eqb (a_field a) "state" then a_atomic a
+    else if String.eqb (a_field a) "usercode" then negb (a_locked a)   (* no logger / hook call under s.mu *)
     else if inb (a_field a) lock_fields then a_locked a
     else if inb (a_field a) lockw_fields then
       if a_write a then a_locked a else a_locked a || inb (a_func a) ctx_readers
@@ -64,7 +65,7 @@ Definition loc_ok (a : acc) : bool :=
    correspondence (reported as such), and the race-detector runs look for a concrete conflicting access. *)
 Definition classified (a : acc) : bool :=
   if String.eqb (a_struct a) "Service" then
-    String.eqb (a_field a) "state" || inb (a_field a) lock_fields || inb (a_field a) lockw_fields ||
+    String.eqb (a_field a) "state" || String.eqb (a_field a) "usercode" || inb (a_field a) lock_fields || inb (a_field a) lockw_fields ||
     inb (a_field a) config_fields || inb (a_field a) ["wg"; "mu"]
   else if String.eqb (a_struct a) "work" then inb (a_field a) ["queue"; "single"; "wid"; "s"]
   else String.eqb (a_struct a) "queryEvent".
